@@ -25,7 +25,7 @@ RULE = ("bursts of 1..5 uniquely tagged messages routed back-to-back and across 
         "non-trivial = a schedule with at least one choice point that had more than one option, a stalled connection, or a scripted interleaving; "
         "distinct = hash(scenario, choice sequence)")
 ASSUMPTIONS = ["thread-pool hand-offs are awaited on the wall clock (bounded; a timeout makes the run inconclusive, never a violation)"]
-REQUIRED_EVENTS = ["schedules", "choice_points", "outputs_checked", "tcp_scenarios", "tty_scenarios", "client_scenarios", "stalled_connection_runs",
+REQUIRED_EVENTS = ["sends_of_one_message_object_updated_in_between", "schedules", "choice_points", "outputs_checked", "tcp_scenarios", "tty_scenarios", "client_scenarios", "stalled_connection_runs",
                    "scripted_interleavings", "scenarios_with_a_message_beyond_the_write_buffer"]
 EXHAUSTIVE_NOTE = "all completion orders of the parked writes/flushes/drains for every scenario of the tier, plus every single stalled connection"
 SHARDED = True
@@ -135,13 +135,15 @@ def make_message(k, big=False, blob=False):
 class Scenario:
     """conns: list of 'tcp' | 'tty' | 'client'; groups: list of burst sizes; stalled: index or None."""
 
-    def __init__(self, conns, groups, stalled=None, script=None, big=(), blob=False, hangup=None):
+    def __init__(self, conns, groups, stalled=None, script=None, big=(), blob=False, hangup=None, reuse=False):
         self.conns, self.groups, self.stalled, self.script, self.big, self.blob = conns, groups, stalled, script, tuple(big), blob
+        self.reuse = reuse            # the application keeps ONE message object, updates it and routes it again (a progress report)
         self.hangup = hangup          # index of a connection whose peer disconnects at a point of the schedule the explorer chooses
 
     def key(self):
         return ((tuple(self.conns), tuple(self.groups), self.stalled, self.script) + ((self.big,) if self.big else ())
-                + (("blob",) if self.blob else ()) + ((("hangup", self.hangup),) if self.hangup is not None else ()))
+                + (("blob",) if self.blob else ()) + ((("hangup", self.hangup),) if self.hangup is not None else ())
+                + (("reuse",) if self.reuse else ()))
 
 
 async def execute(ctx, sc, prefix):
@@ -181,6 +183,7 @@ async def execute(ctx, sc, prefix):
             if c["kind"] != "client":
                 router.process_message(M.EnableBLOB(device="D", value="Also"), sender=c["handler"])
     sent = []
+    reused = [None]
     groups = list(sc.groups)
     counts = []
     nmsg = [0]
@@ -189,9 +192,17 @@ async def execute(ctx, sc, prefix):
         if not groups:
             return False
         for _ in range(groups.pop(0)):
-            msg = make_message(nmsg[0], nmsg[0] in sc.big, sc.blob)
+            if sc.reuse:
+                if reused[0] is None:
+                    reused[0] = make_message(0)
+                reused[0].children[0].value = f"M{nmsg[0]}"
+                reused[0].state = ["Busy", "Ok"][nmsg[0] % 2]
+                msg = reused[0]
+                ctx.count("sends_of_one_message_object_updated_in_between")
+            else:
+                msg = make_message(nmsg[0], nmsg[0] in sc.big, sc.blob)
             nmsg[0] += 1
-            sent.append(msg)
+            sent.append(view_lib(msg))        # what was routed, as it was when it was routed
             t0 = time.monotonic()
             if any(c["kind"] != "client" for c in conns):
                 router.process_message(msg)            # device traffic to every server-side connection
@@ -330,7 +341,7 @@ async def execute(ctx, sc, prefix):
             except xmlsplit.SplitError as e:
                 return counts, (f"output-interleaved-or-torn:{c['kind']}", f"connection {i}: {e}", out[-300:])
             got = [view_xml(e) for e in els]
-            want = [view_lib(m) for m in sent]
+            want = list(sent)
             if sc.hangup == i and hung[0]:
                 continue                          # whatever the disconnected peer still got is not judged
             if sc.stalled == i:
@@ -399,7 +410,7 @@ def explore(ctx, sc, max_schedules=None):
         if bad:
             key, what, out = bad
             ctx.violate(key, f"{what} (scenario {sc.key()}, schedule {full})",
-                        {"conns": sc.conns, "groups": sc.groups, "stalled": sc.stalled, "script": sc.script, "big": list(sc.big), "blob": sc.blob, "hangup": sc.hangup, "schedule": full}, {"output_tail": out})
+                        {"conns": sc.conns, "groups": sc.groups, "stalled": sc.stalled, "script": sc.script, "big": list(sc.big), "blob": sc.blob, "hangup": sc.hangup, "reuse": sc.reuse, "schedule": full}, {"output_tail": out})
             return n
         # children: alternatives at positions >= len(prefix)
         for pos in range(len(counts) - 1, len(prefix) - 1, -1):
@@ -434,6 +445,9 @@ def scenarios(ctx):
     for kind in ("tcp", "client", "tty"):
         out += [Scenario([kind], [3, 1]), Scenario([kind], [3, 2]), Scenario([kind], [4, 1]), Scenario([kind], [2, 1, 1])]
     # one peer disconnects somewhere in the schedule while the others have parked and queued sends
+    for kind in ("tcp", "tty", "client"):
+        out += [Scenario([kind], [3], reuse=True), Scenario([kind], [1, 1, 1], reuse=True), Scenario([kind], [2, 1], reuse=True)]
+    out += [Scenario(["tcp", "tty"], [2, 1], reuse=True)]
     out += [Scenario(["tcp", "tcp"], [2, 1], hangup=1), Scenario(["tcp", "tcp"], [1, 1, 1], hangup=0), Scenario(["tcp", "tcp", "tcp"], [2], hangup=2),
             Scenario(["tcp", "tty"], [2, 1], hangup=0)]
     out += [Scenario(["tcp", "tcp"], [1, 1], big=(0,)), Scenario(["tcp", "tty"], [1, 1], big=(0,)), Scenario(["tcp", "tcp"], [1, 1], big=(0,), stalled=0)]
@@ -489,7 +503,7 @@ def exhaustive(ctx):
 
 
 def replay(ctx, case):
-    sc = Scenario(case["conns"], case["groups"], case.get("stalled"), case.get("script"), case.get("big") or (), bool(case.get("blob")), case.get("hangup"))
+    sc = Scenario(case["conns"], case["groups"], case.get("stalled"), case.get("script"), case.get("big") or (), bool(case.get("blob")), case.get("hangup"), bool(case.get("reuse")))
     counts, bad = asyncio.run(execute(ctx, sc, case["schedule"]))
     ctx.case_fast(("replay",))
     ctx.case_fast(("replay2",))
